@@ -52,26 +52,71 @@ func goList(dir string, args ...string) string {
 	return out.String()
 }
 
-// usesConcurrency: functions that use go statements, channels, select or package sync are left alone
-// (they run atomically with respect to the simulated scheduler).
-func usesConcurrency(n ast.Node) bool {
-	found := false
+// Blocking primitives. A task of the simulator must never be parked by the scheduler while it holds a real
+// lock (another task would then block on that lock while holding the baton: deadlock), and the scheduler
+// cannot see goroutines the library starts itself. So:
+//   - mu.Lock()/RLock() ... Unlock()/RUnlock() and once.Do(f) are bracketed with verifsim.Hold(+1)/Hold(-1):
+//     while a task's hold count is positive its yields do not preempt (critical sections are atomic to the
+//     simulator: fewer interleavings, never an impossible one, never a deadlock);
+//   - a function that uses go statements, channel operations, select, WaitGroup/Cond or TryLock holds for its
+//     whole duration (function-level atomic).
+func syncMethod(info *types.Info, call *ast.CallExpr) (typ, method string) {
+	sel, ok := call.Fun.(*ast.SelectorExpr)
+	if !ok {
+		return "", ""
+	}
+	s, ok := info.Selections[sel]
+	if !ok {
+		return "", ""
+	}
+	fn, ok := s.Obj().(*types.Func)
+	if !ok || fn.Pkg() == nil || fn.Pkg().Path() != "sync" {
+		return "", ""
+	}
+	sig, ok := fn.Type().(*types.Signature)
+	if !ok || sig.Recv() == nil {
+		return "", ""
+	}
+	t := sig.Recv().Type()
+	if p, ok := t.(*types.Pointer); ok {
+		t = p.Elem()
+	}
+	if n, ok := t.(*types.Named); ok {
+		return n.Obj().Name(), fn.Name()
+	}
+	return "", ""
+}
+
+// needsFunctionHold: constructs the simulator cannot bracket statement by statement.
+func needsFunctionHold(info *types.Info, n ast.Node) (hold bool, spawns bool) {
 	ast.Inspect(n, func(x ast.Node) bool {
 		switch v := x.(type) {
-		case *ast.GoStmt, *ast.SelectStmt, *ast.SendStmt, *ast.ChanType:
-			found = true
+		case *ast.GoStmt:
+			hold, spawns = true, true
+		case *ast.SelectStmt, *ast.SendStmt:
+			hold = true
 		case *ast.UnaryExpr:
 			if v.Op == token.ARROW {
-				found = true
+				hold = true
 			}
-		case *ast.SelectorExpr:
-			if id, ok := v.X.(*ast.Ident); ok && (id.Name == "sync" || id.Name == "atomic") {
-				found = true
+		case *ast.RangeStmt:
+			if tv, ok := info.Types[v.X]; ok {
+				if _, isChan := tv.Type.Underlying().(*types.Chan); isChan {
+					hold = true
+				}
+			}
+		case *ast.CallExpr:
+			typ, m := syncMethod(info, v)
+			switch {
+			case typ == "WaitGroup" || typ == "Cond":
+				hold = true
+			case m == "TryLock" || m == "TryRLock":
+				hold = true
 			}
 		}
-		return !found
+		return true
 	})
-	return found
+	return hold, spawns
 }
 
 func main() {
@@ -106,7 +151,8 @@ func main() {
 		return os.Open(e)
 	})
 	var siteNames []string
-	nMaps, nMapsSkipped, nAtomicFuncs := 0, 0, 0
+	nMaps, nMapsSkipped, nAtomicFuncs, nLocks := 0, 0, 0, 0
+	spawnsGoroutines := false
 	kv := 0
 	for _, p := range pkgs {
 		var files []*ast.File
@@ -120,7 +166,7 @@ func main() {
 			files = append(files, af)
 			names = append(names, full)
 		}
-		info := &types.Info{Types: map[ast.Expr]types.TypeAndValue{}}
+		info := &types.Info{Types: map[ast.Expr]types.TypeAndValue{}, Selections: map[*ast.SelectorExpr]*types.Selection{}, Uses: map[*ast.Ident]types.Object{}}
 		conf := types.Config{Importer: imp, Error: func(err error) {}}
 		if _, err := conf.Check(p.path, fset, files, info); err != nil {
 			fatal("type-check %s: %v", p.path, err)
@@ -143,14 +189,75 @@ func main() {
 			}
 			offOf := func(pos token.Pos) int { return fset.Position(pos).Offset }
 			rel, _ := filepath.Rel(root, full)
-			// atomic functions
+			// function-level holds (go/chan/select/WaitGroup/Cond/TryLock) and statement-level holds (Lock..Unlock, Once.Do)
 			skip := map[ast.Node]bool{}
 			for _, d := range af.Decls {
-				if fd, ok := d.(*ast.FuncDecl); ok && fd.Body != nil && usesConcurrency(fd) {
-					skip[fd.Body] = true
+				fd, ok := d.(*ast.FuncDecl)
+				if !ok || fd.Body == nil {
+					continue
+				}
+				if hold, spawns := needsFunctionHold(info, fd); hold {
 					nAtomicFuncs++
+					add(offOf(fd.Body.Lbrace)+1, 0, " verifsim.Hold(1); defer verifsim.Hold(-1);")
+					if spawns {
+						spawnsGoroutines = true
+					}
 				}
 			}
+			// bracket blocking sync calls; the enclosing statement is found through a parent stack
+			var stack []ast.Node
+			ast.Inspect(af, func(x ast.Node) bool {
+				if x == nil {
+					stack = stack[:len(stack)-1]
+					return true
+				}
+				stack = append(stack, x)
+				call, ok := x.(*ast.CallExpr)
+				if !ok {
+					return true
+				}
+				typ, m := syncMethod(info, call)
+				if typ == "" {
+					return true
+				}
+				// innermost enclosing statement that sits in a statement list
+				var stmt ast.Stmt
+				for i := len(stack) - 2; i >= 0; i-- {
+					if st, ok := stack[i].(ast.Stmt); ok {
+						switch st.(type) {
+						case *ast.ExprStmt, *ast.DeferStmt, *ast.AssignStmt:
+							stmt = st
+						}
+						if stmt != nil {
+							break
+						}
+					}
+				}
+				if stmt == nil {
+					return true
+				}
+				_, isDefer := stmt.(*ast.DeferStmt)
+				switch {
+				case (typ == "Mutex" || typ == "RWMutex") && (m == "Lock" || m == "RLock"):
+					if !isDefer {
+						add(offOf(stmt.Pos()), 0, "verifsim.Hold(1); ")
+						nLocks++
+					}
+				case (typ == "Mutex" || typ == "RWMutex") && (m == "Unlock" || m == "RUnlock"):
+					if isDefer {
+						add(offOf(stmt.Pos()), 0, "defer verifsim.Hold(-1); ")
+					} else {
+						add(offOf(stmt.End()), 0, "; verifsim.Hold(-1)")
+					}
+				case typ == "Once" && m == "Do":
+					if !isDefer {
+						add(offOf(stmt.Pos()), 0, "verifsim.Hold(1); ")
+						add(offOf(stmt.End()), 0, "; verifsim.Hold(-1)")
+						nLocks++
+					}
+				}
+				return true
+			})
 			var visit func(n ast.Node) bool
 			instrList := func(list []ast.Stmt) {
 				for _, s := range list {
@@ -262,7 +369,7 @@ func main() {
 	// site table
 	var sb strings.Builder
 	sb.WriteString("package verifsim\n\nfunc init() {\n")
-	fmt.Fprintf(&sb, "\tNSites = %d\n\tSiteNames = []string{\n", len(siteNames))
+	fmt.Fprintf(&sb, "\tNSites = %d\n\tForeignGoroutines = %v\n\tSiteNames = []string{\n", len(siteNames), spawnsGoroutines)
 	for _, s := range siteNames {
 		fmt.Fprintf(&sb, "\t\t%q,\n", s)
 	}
@@ -270,6 +377,6 @@ func main() {
 	if err := os.WriteFile(filepath.Join(root, "verifsim", "verifsim_sites.go"), []byte(sb.String()), 0o644); err != nil {
 		fatal("%v", err)
 	}
-	fmt.Printf("instrumented %s: %d yield sites, %d map iterations routed through the seam (%d kept: body mutates the map), %d functions left atomic (use go/chan/select/sync)\n",
-		modPath, len(siteNames), nMaps, nMapsSkipped, nAtomicFuncs)
+	fmt.Printf("instrumented %s: %d yield sites, %d map iterations routed through the seam (%d kept: body mutates the map), %d functions held atomic (go/chan/select/WaitGroup/Cond), %d lock/once sections bracketed\n",
+		modPath, len(siteNames), nMaps, nMapsSkipped, nAtomicFuncs, nLocks)
 }
